@@ -119,6 +119,8 @@ inductive SOp where
   | unstall (c : Cid)
   | shutdown
   | shutreg (id : Id) (v1 : Bool)
+  /-- a frame the property's own decoder model has already decoded (`none` = rejected) -/
+  | decoded (c : Cid) (f : Option (C2R Tok))
 
 /-- Size check of the server-side decoder `ClientToRelayMsg::from_bytes` for a datagram
 frame: what follows the frame type must be at most `MAX_PACKET_SIZE` bytes. -/
@@ -168,6 +170,8 @@ def Sim.doOp (cfg : Cfg Tok) (sim : Sim) : SOp → Sim × String
     let sim := regs.foldl Sim.wake (sim.apply cfg .shutdown)
     let c := sim.st.nextCid
     ((sim.wake c).apply cfg (.register id v1), s!"c{c}")
+  | .decoded c (some f) => (sim.pushIn c (.frame f), "-")
+  | .decoded c none => (sim.pushIn c .eof, "-")
 
 -- ---------------------------------------------------------------------------------------------
 -- rendering (must match `Trace::render` of the harness byte for byte)
@@ -269,7 +273,8 @@ def parseSOp (s : String) : Option SOp :=
 
 /-- Parses and replays a whole payload; `mkCfg cap` builds the configuration
 (`cap = 0` stands for the crate's default capacity). -/
-def runPayload (mkCfg : Nat → Cfg Tok) (numIds : Nat) (payload : String) : String :=
+def runPayloadWith (extra : Cfg Tok → String → Option SOp) (mkCfg : Nat → Cfg Tok) (numIds : Nat)
+    (payload : String) : String :=
   match payload.splitOn ";" with
   | [] => "bad-input"
   | capS :: opsS =>
@@ -277,12 +282,16 @@ def runPayload (mkCfg : Nat → Cfg Tok) (numIds : Nat) (payload : String) : Str
     | none => "bad-input"
     | some cap =>
       let cfg := mkCfg cap
-      match (opsS.filter (fun o => !(tokens o).isEmpty)).mapM parseSOp with
+      match (opsS.filter (fun o => !(tokens o).isEmpty)).mapM
+          (fun o => (parseSOp o).orElse fun _ => extra cfg o) with
       | none => "bad-input"
       | some ops =>
         let (_, outs) := ops.foldl (fun (acc : Sim × List String) op =>
           let (sim, o) := acc.1.runOp cfg numIds op
           (sim, o :: acc.2)) (Sim.init, [])
         joinWith "|" outs.reverse
+
+def runPayload (mkCfg : Nat → Cfg Tok) (numIds : Nat) (payload : String) : String :=
+  runPayloadWith (fun _ _ => none) mkCfg numIds payload
 
 end IrohModel.RelaySched
